@@ -28,6 +28,7 @@ class Defs:
         self.defs: dict[str, list] = {}
         self.kinds: dict[str, list] = {}  # parallel to defs: "assign" | "aug" | "loop" | "with" | "comp" | "walrus" | "store" | "unpack"
         self._mut = None
+        self._built = None
         self._kind = "assign"
         self._collect(func_node)
 
@@ -40,11 +41,19 @@ class Defs:
                 continue
 
     def plain_single_def(self, name):
-        """The value of ``name`` when it is bound exactly once, by a plain ``name = value`` assignment (not a loop /
+        """The value of ``name`` when it is bound exactly once (or several times to the very same expression), by a plain ``name = value`` assignment (not a loop /
         with / comprehension target, not an unpacking, never augmented or stored into); else None."""
         vs, ks = self.defs.get(name, []), self.kinds.get(name, [])
+        if self.built_up(name):
+            # a container that is filled after its (empty) initialisation does not stand for its initialiser
+            return None
         if len(vs) == 1 and ks == ["assign"] and name not in self.params:
             return vs[0]
+        # the same plain assignment repeated (``arg = args[i]`` in two sibling loops): the name still stands for one
+        # expression, so re-using a local's name elsewhere in the function does not make it opaque
+        if len(vs) > 1 and set(ks) == {"assign"} and name not in self.params and all(v is not None for v in vs):
+            if len({ast.dump(v) for v in vs}) == 1:
+                return vs[0]
         return None
 
     def _collect(self, root):
@@ -88,6 +97,22 @@ class Defs:
                 self._bind_target(t, v)
             return
         self._bind(target, value, "unpack" if isinstance(target, (ast.Tuple, ast.List)) and self._kind == "assign" else None)
+
+    MUTATORS = frozenset({"append", "extend", "update", "insert", "add", "setdefault", "pop", "remove", "clear", "discard", "sort", "reverse", "popitem", "appendleft"})
+
+    def built_up(self, name):
+        """Is the local ``name`` mutated through a method call rooted at it (``g.add(v)``, ``g[k].append(v)``,
+        ``g.setdefault(k, set()).add(v)``)?"""
+        if self._built is None:
+            self._built = set()
+            for n in ast.walk(self.func):
+                if isinstance(n, ast.Call) and isinstance(n.func, ast.Attribute) and n.func.attr in self.MUTATORS:
+                    r = n.func.value
+                    while isinstance(r, (ast.Attribute, ast.Call, ast.Subscript)):
+                        r = r.func if isinstance(r, ast.Call) else r.value
+                    if isinstance(r, ast.Name):
+                        self._built.add(r.id)
+        return name in self._built
 
     def mutations(self, name):
         """Values appended/updated into a local container: x.append(v), x.extend(v), x.update(v), x[k] = v."""
